@@ -228,6 +228,30 @@ Proof.
   split; [rewrite E1|rewrite E2]; eapply node_points_valid; eassumption.
 Qed.
 
+Lemma node_points_strict_sub body p : In p (node_points_strict body) -> In p (node_points body).
+Proof.
+  intro H. right. unfold node_points_strict in H. apply in_flat_map in H. destruct H as [n [Hn Hp]].
+  apply filter_In in Hn. destruct Hn as [Hn _]. apply in_flat_map. exists n. split; assumption.
+Qed.
+Lemma node_ends_sub body p : In p (node_ends body) -> In p (node_points_strict body).
+Proof.
+  unfold node_ends, node_points_strict. intro H. apply in_flat_map in H. destruct H as [n [Hn Hp]].
+  apply in_flat_map. exists n. split; [exact Hn|].
+  destruct (N.eqb (fst (fst n)) 8); [exact Hp|]. destruct Hp as [<-|[]]. right. left. reflexivity.
+Qed.
+Lemma err_span_from_span_from body sp : err_span_from body sp = true -> span_from body sp = true.
+Proof.
+  unfold err_span_from, span_from, point_from. intro H. apply andb_prop in H. destruct H as [H1 H2].
+  apply existsb_exists in H1. destruct H1 as [p1 [I1 E1]].
+  apply andb_true_intro. split.
+  - apply existsb_exists. exists p1. split; [apply node_points_strict_sub; exact I1|exact E1].
+  - apply orb_prop in H2. destruct H2 as [H2|H2].
+    + apply existsb_exists in H2. destruct H2 as [p2 [I2 E2]]. apply existsb_exists. exists p2.
+      split; [apply node_points_strict_sub, node_ends_sub; exact I2|exact E2].
+    + apply andb_prop in H2. destruct H2 as [H2 _]. apply existsb_exists. exists pos0.
+      split; [left; reflexivity|exact H2].
+Qed.
+
 (* ------------------------------------------------------------------ the composed front end *)
 Definition walker_returns (walk : list stmt -> outcome walk_out) : Prop := forall body, exists w, walk body = Ok w.
 Definition walker_contract (walk : list stmt -> outcome walk_out) : Prop :=
@@ -287,7 +311,7 @@ Proof.
     + intro H. injection H as <- <-. apply andb_prop in Hc. destruct Hc as [Hne Hall]. split.
       * destruct es'; [discriminate|discriminate].
       * apply Forall_forall. intros sp Hsp. rewrite forallb_forall in Hall.
-        eapply span_from_inside; [exact Hn|apply Hall; exact Hsp].
+        eapply span_from_inside; [exact Hn|apply err_span_from_span_from; apply Hall; exact Hsp].
     + apply andb_prop in Hc. destruct Hc as [Hall Hwf].
       destruct (file_panics (map erase lf)); [discriminate|].
       destruct (conv_errors t lf) as [|e0 er] eqn:Ec; [discriminate|].
